@@ -152,7 +152,9 @@ Definition dispatch0 (line : list N) : list N * list N :=
   | [op; a; b; c; d] =>
       if is "ocgr" op then (m_ocgr (parse_nat a) (parse_Z b) (flag c) (parse_hex d), s_ocgr (parse_nat a) (parse_Z b) (flag c) (parse_hex d))
       else if is "ctrfs" op then
-        (m_ctrfs (parse_nat a) (parse_dec b) (flag c) (parse_hex_list d), s_ctrfs (parse_nat a) (parse_dec b) (flag c) (parse_hex_list d))
+        (if list_eqb c [50] then m_ctrfs_after_real_run (parse_nat a) (parse_dec b) (parse_hex_list d)
+         else m_ctrfs (parse_nat a) (parse_dec b) (flag c) (parse_hex_list d),
+         s_ctrfs (parse_nat a) (parse_dec b) (flag c) (parse_hex_list d))
       else if is "read" op then   (* read <file name> <expected format> <members> <expected records id:seq,...> *)
         (m_read a (parse_hex_list c), s_read b (parse_recs d))
       else unknown
